@@ -556,14 +556,22 @@ func genCmdArgsCase(r *rand.Rand, tier string) *sx.Node {
 	}
 	hc = append(hc, sx.Str("stop")) // a handler registered under "stop" must never run
 	ops := []*sx.Node{}
+	// a third of the cases: two runners of the same script, each with its own handlers under the same
+	// names, stepped alternately - a command of one runner must reach that runner's handler
+	nr := 1
+	if r.Intn(3) == 0 {
+		nr = 2
+	}
 	for i := 0; i < nops; i++ {
-		ops = append(ops, sx.Tag("next", sx.Int(0), sx.Int(0)))
+		for ri := 0; ri < nr; ri++ {
+			ops = append(ops, sx.Tag("next", sx.Int(int64(ri)), sx.Int(0)))
+		}
 	}
 	lseed := r.Int63()
 	lay := randomLayout(rand.New(rand.NewSource(lseed)))
 	lay.trailingCmt, lay.blankProb = 0, 0
 	return sx.Tag("runner", seedNode(randomSeed(r), 64), sx.Tag("storer", sx.Bool(false)), sx.Tag("init"), sx.Tag("hcmds", hc...),
-		sx.Tag("sched"), sx.Tag("nrunners", sx.Int(1)), sx.Tag("nodes", sx.List(nodes...)), sx.Tag("readers", sx.Int(1)),
+		sx.Tag("sched"), sx.Tag("nrunners", sx.Int(int64(nr))), sx.Tag("nodes", sx.List(nodes...)), sx.Tag("readers", sx.Int(1)),
 		layoutToSx(lay, lseed), sx.Tag("ops", ops...))
 }
 
@@ -668,6 +676,22 @@ func runConcurrent(c *sx.Node) *sx.Node {
 			}
 		}(n)
 	}
+	// and four "hammer" runners: each runs one node 120 times, every pass calling every pure built-in,
+	// the conversions and markup with replacement markers, on values of its own; its trace must be the
+	// one the same script gives alone (computed before the goroutines start)
+	hammerRef := make([]string, 4)
+	hammerGot := make([]string, 4)
+	hammerDone := make(chan struct{}, 4)
+	for n := range hammerRef {
+		hammerRef[n] = hammerTrace(n * 7)
+	}
+	for n := 0; n < 4; n++ {
+		go func(n int) {
+			defer func() { hammerDone <- struct{}{} }()
+			<-start
+			hammerGot[n] = hammerTrace(n * 7)
+		}(n)
+	}
 	for i := range cases {
 		go func(i int) {
 			defer func() {
@@ -692,6 +716,12 @@ func runConcurrent(c *sx.Node) *sx.Node {
 	close(stop)
 	for n := 0; n < 4; n++ {
 		<-noiseDone
+		<-hammerDone
+	}
+	for n := range hammerRef {
+		if hammerGot[n] != hammerRef[n] || strings.Contains(hammerRef[n], "err:") || strings.Contains(hammerRef[n], "load:") || !strings.HasSuffix(hammerRef[n], "end\n") {
+			results = append(results, sx.Tag("hammer-differs", sx.Int(int64(n)), sx.Str(firstDiffLine(hammerRef[n], hammerGot[n]))))
+		}
 	}
 	return sx.Tag("all", results...)
 }
@@ -706,4 +736,21 @@ var brokenScripts = []string{
 	"title: A\n---\n<<jump>>\n-> o\n    -> p\n        -> q\n            r",     // error, then end of input deep inside
 	"title: A\n---\n-> a\n\t-> b\n\t\tc\n\t  d\n===\n",                        // tabs then blanks
 	"title: A\n---\n    indented first line\n        deeper\n===\n===\n",         // stray second delimiter
+}
+
+func firstDiffLine(a, b string) string {
+	la, lb := strings.Split(a, "\n"), strings.Split(b, "\n")
+	for i := 0; i < len(la) || i < len(lb); i++ {
+		x, y := "", ""
+		if i < len(la) {
+			x = la[i]
+		}
+		if i < len(lb) {
+			y = lb[i]
+		}
+		if x != y {
+			return "alone: " + x + " | concurrently: " + y
+		}
+	}
+	return "alone: " + a
 }
